@@ -475,3 +475,50 @@ Definition orig_parse (fuel : nat) (txt : list Z) : result re :=
   | [] => Ok Eps
   | _ => '(e, rest) <- orig_parse_or fuel txt ;; orig_top_loop fuel e rest
   end.
+
+(* ================================================================== repaired variants
+   (fixes/C31-regex-compile-error-state.diff, fixes/C31-regex-scan-empty-match.diff);
+   the definitions above stay the model of the code as found. *)
+
+(* compile(): when the error state was not reached it is appended after the loop, with the
+   transitions of its own derivative classes (all of them lead back to it) *)
+Definition null_row (n : nat) : list tr :=
+  sort_tr (flat_map (fun K => map (fun r => (fst r, snd r, n)) K) (classes NULL)).
+
+Definition compile_fx (fuel : nat) (r : re) : result dfa :=
+  st <- compile_loop fuel ([r], [[]], [r]) ;;
+  let '(states, trs, _) := st in
+  match index_of NULL states O with
+  | Some e => Ok (trs, map nullable states, e)
+  | None => Ok (trs ++ [null_row (length states)], map nullable (states ++ [NULL]), length states)
+  end.
+
+(* scan(): an empty longest match counts as no match *)
+Fixpoint scan_loop_fx (fuel : nat) (d : dfa) (chars : list Z)
+         (start offset state : nat) (accept : bool) (end_ : nat) (out : list (list Z))
+  : result (list (list Z)) :=
+  match fuel with
+  | O => OutOfFuel
+  | S fuel' =>
+      let '(trs, accepts, error) := d in
+      match nth_error accepts state with
+      | None => Internal IndexError
+      | Some acc_here =>
+          let accept1 := if acc_here then true else accept in
+          let end1 := if acc_here then offset else end_ in
+          r <- match nth_error chars offset with
+               | Some ch => m <- pick_transition trs state ch ;; Ok (m, S offset)
+               | None => Ok (error, offset)
+               end ;;
+          let '(state1, offset1) := r in
+          if (state1 =? error)%nat then
+            if accept1 && (start <? end1)%nat then
+              scan_loop_fx fuel' d chars end1 end1 O false end1
+                           (out ++ [firstn (end1 - start) (skipn start chars)])
+            else if (start <? offset1)%nat then Diag 1
+            else Ok out
+          else scan_loop_fx fuel' d chars start offset1 state1 accept1 end1 out
+      end
+  end.
+Definition scan_fx (fuel : nat) (d : dfa) (chars : list Z) : result (list (list Z)) :=
+  scan_loop_fx fuel d chars O O O false O [].
